@@ -27,7 +27,7 @@
    their original statements (other units apply them positionally); the
    statements with the narrower hypotheses are the ones named _at / _url / _exact. *)
 From Coq Require Import List ZArith Bool Permutation String.
-From Verif Require Import C03.Trie C03.Model C03.Spec C03.SpecLocal C03.Proofs C03.Stars C03.Exact C03.Accept.
+From Verif Require Import C03.Trie C03.Model C03.Spec C03.SpecLocal C03.Proofs C03.Stars C03.Exact C03.Accept C03.Loader.
 Import ListNotations.
 Open Scope Z_scope.
 
@@ -536,4 +536,128 @@ Example C03_demo_no_response :
   /\ map f_id (get_flow (tree_of demo) rs) = [4; 0; 1; 2]
   /\ map f_id (get_flow (tree_of demo) rn) = [4; 0; 1]
   /\ resp_status rn = None /\ resp_status rs = Some 201.
+Proof. vm_compute. repeat split; reflexivity. Qed.
+
+(* ================================================================
+   The loader stage: flows WRITTEN in flow files, decoded, then loaded
+   (Model.load_with d ws: every written flow with its URL passed through d;
+    the code is d = decode_keep, the identity: the URL as written)
+   ================================================================ *)
+
+(* ---- decoding a flow file keeps the filter as written: every statement above
+        transfers verbatim to the flows as written ---- *)
+Theorem C03_loader_keeps_filter : forall ws, load_flows ws = ws.
+Proof. exact load_flows_id. Qed.
+Print Assumptions C03_loader_keeps_filter.
+
+(* ---- the "exactly when", from the flow FILE to the selection: the pattern
+        judged is the URL as written (letter case included: [matches_lax]
+        compares tokens byte by byte) ---- *)
+Theorem C03_loaded_exact_lax : forall ws x f,
+  load_ok (load_flows ws) = true -> kc_url ws (url_of x) = true ->
+  (In f (get_flow (tree_of (load_flows ws)) x) <->
+   In f ws /\ matches_lax (pat f) (url_of x) = true /\ constraints_hold f x /\
+   unshadowed_k ws f (url_of x) = true).
+Proof. intros ws x f. rewrite load_flows_id. apply C03_exact_lax. Qed.
+Print Assumptions C03_loaded_exact_lax.
+
+(* the two directions for an arbitrary decode function d, flows identified by id
+   (the decoded flow is another record when d changes the URL) *)
+Definition C03_loader_complete_for (d : tok -> tok) : Prop := forall ws x f,
+  load_ok (load_with d ws) = true -> kc_at ws f (url_of x) = true -> In f ws ->
+  matches (pat f) (url_of x) = true -> constraints_hold f x ->
+  unshadowed_k ws f (url_of x) = true ->
+  In (f_id f) (map f_id (get_flow (tree_of (load_with d ws)) x)).
+
+Definition C03_loader_sound_for (d : tok -> tok) : Prop := forall ws x g,
+  load_ok (load_with d ws) = true -> kc_url ws (url_of x) = true ->
+  In g (get_flow (tree_of (load_with d ws)) x) ->
+  exists f, In f ws /\ f_id f = f_id g /\ matches_lax (pat f) (url_of x) = true.
+
+Theorem C03_loader_complete : C03_loader_complete_for decode_keep.
+Proof.
+  intros ws x f HL HK Hf HM HC HU. fold (load_flows ws) in *. rewrite load_flows_id in *.
+  apply in_map. apply C03_complete_at; assumption.
+Qed.
+Print Assumptions C03_loader_complete.
+
+Theorem C03_loader_sound : C03_loader_sound_for decode_keep.
+Proof.
+  intros ws x g HL HK H. fold (load_flows ws) in *. rewrite load_flows_id in *.
+  exists g. apply (C03_exact_lax ws x g HL HK) in H. destruct H as [H1 [H2 _]].
+  split; [exact H1|]. split; [reflexivity | exact H2].
+Qed.
+Print Assumptions C03_loader_sound.
+
+(* the variant "URL lower-cased when the flow file is decoded" loses the flow on
+   the URL it was written for ... *)
+Theorem C03_loader_lowercase_complete_refuted : ~ C03_loader_complete_for decode_lower.
+Proof.
+  intro H. specialize (H [U "a/B"] (GET "a/B") (U "a/B")).
+  assert (HF : In (f_id (U "a/B"))
+                  (map f_id (get_flow (tree_of (load_with decode_lower [U "a/B"])) (GET "a/B")))).
+  { apply H.
+    - vm_compute. reflexivity.
+    - vm_compute. reflexivity.
+    - left. reflexivity.
+    - vm_compute. reflexivity.
+    - apply qualifies_iff. vm_compute. reflexivity.
+    - vm_compute. reflexivity. }
+  vm_compute in HF. exact HF.
+Qed.
+Print Assumptions C03_loader_lowercase_complete_refuted.
+
+(* ... and applies it to a URL with another literal segment *)
+Theorem C03_loader_lowercase_sound_refuted : ~ C03_loader_sound_for decode_lower.
+Proof.
+  intro H. specialize (H [U "a/B"] (GET "a/b") (with_url decode_lower (U "a/B"))).
+  destruct H as [f [Hf [_ HM]]]; try reflexivity.
+  - vm_compute. left. reflexivity.
+  - destruct Hf as [<-|[]]. vm_compute in HM. discriminate HM.
+Qed.
+Print Assumptions C03_loader_lowercase_sound_refuted.
+
+(* two flows whose filters differ only in letter case are two different resources *)
+Example C03_demo_letter_case :
+  let ws := [mkFlow 0 0 (bs "Api.x.com/v2/Users/{id}") [] [] [] [];
+             mkFlow 1 0 (bs "Api.x.com/v2/users/{id}") [] [] [] []] in
+  load_ok (load_flows ws) = true
+  /\ kc_url ws (url_of (GET "Api.x.com/v2/Users/42")) = true
+  /\ map f_id (get_flow (tree_of (load_flows ws)) (GET "Api.x.com/v2/Users/42")) = [0]
+  /\ map f_id (get_flow (tree_of (load_flows ws)) (GET "Api.x.com/v2/users/42")) = [1]
+  /\ map f_id (get_flow (tree_of (load_flows ws)) (GET "Api.x.com/v2/USERS/42")) = []
+  /\ map f_id (get_flow (tree_of (load_flows ws)) (GET "api.x.com/v2/users/42")) = []
+  /\ map f_id (get_flow (tree_of (load_with decode_lower ws)) (GET "Api.x.com/v2/Users/42")) = []
+  /\ map f_id (get_flow (tree_of (load_with decode_lower ws)) (GET "api.x.com/v2/users/42")) = [0; 1].
+Proof. vm_compute. repeat split; reflexivity. Qed.
+
+(* ================================================================
+   status_code is a SET of codes: the order written is irrelevant
+   ================================================================ *)
+Theorem C03_status_membership : forall f x,
+  status_ok f x = true <->
+  t_resp x = false \/ f_status f = [] \/
+  exists st, resp_status x = Some st /\ In st (f_status f).
+Proof. exact status_ok_iff. Qed.
+Print Assumptions C03_status_membership.
+
+Theorem C03_status_list_order_free : forall f f' x,
+  Permutation (f_status f) (f_status f') -> status_ok f x = status_ok f' x.
+Proof. exact status_ok_perm. Qed.
+Print Assumptions C03_status_list_order_free.
+
+(* the variant "codes looked up by bisection" (sort.SearchInts on the list as
+   written) is not the membership test: [500; 429; 404] loses all three codes *)
+Theorem C03_status_bsearch_refuted :
+  ~ (forall l st, status_in_bsearch l st = existsb (fun s => s =? st) l).
+Proof. intro H. specialize (H [500; 429; 404] 404). vm_compute in H. discriminate H. Qed.
+Print Assumptions C03_status_bsearch_refuted.
+
+Example C03_demo_status_lists :
+  let f l := mkFlow 0 0 (bs "a/b") [] [] [] l in
+  let r st := mkTxn true (bs "a/b") (bs "GET") [] [] st in
+  map (fun st => status_ok (f [500; 429; 404]) (r st)) [200; 404; 429; 499; 500] = [false; true; true; false; true]
+  /\ map (fun st => status_ok (f [404; 200]) (r st)) [200; 404; 429] = [true; true; false]
+  /\ map (status_in_bsearch [500; 429; 404]) [404; 429; 500] = [false; false; false]
+  /\ map (status_in_bsearch [404; 429; 500]) [404; 429; 500; 200; 503] = [true; true; true; false; false].
 Proof. vm_compute. repeat split; reflexivity. Qed.
